@@ -463,7 +463,11 @@ def judgeRead (st : JState) : IO JState := do
       | some _, none => emit st "FAIL" "corr" "no-model-parse" "the written text has no model parse"
       | some w, some F0 =>
         let (t1, b1) := propBlocks F0 st.text
-        let (t2, b2) := propBlocks F0 w
+        -- the writer lists the properties of one entity kind in an order that depends on addresses (a set of shared
+        -- pointers): the second text is split by ITS OWN model parse, not by the block lengths of the first one
+        let (t2, b2) := match (parse (mkCfg "poly" false) w).res with
+          | .ok F2 => propBlocks F2 w
+          | .error _ => propBlocks F0 w
         if t1 != t2 then emit st "FAIL" "prop" "second-write:topology" "second write: topology text differs"
         else if sortStrs b1 != sortStrs b2 || w.length != st.text.length then emit st "FAIL" "prop" "second-write:properties" "second write: property blocks differ"
         else
